@@ -285,8 +285,14 @@ def guard_registry(reg, guard):
 
 
 # ============================================================================================ building blocks
+PRESENT = os.environ.get("XH_PRESENT")  # optional case split of the present flags, e.g. "01??" ('?': stays symbolic)
+
+
 def _state(p0, t0, p1, t1, p2, t2, p3, t3):
-    return [p0, p1, p2, p3][: SHAPE.n], [t0, t1, t2, t3][: SHAPE.n]
+    P = [p0, p1, p2, p3][: SHAPE.n]
+    if PRESENT:
+        P = [P[j] if PRESENT[j] == "?" else PRESENT[j] == "1" for j in range(SHAPE.n)]
+    return P, [t0, t1, t2, t3][: SHAPE.n]
 
 
 def _counts(log, kind):
